@@ -17,11 +17,8 @@ func init() { props["C19"] = runC19 }
 // runC19 runs the race-detector harness (go/bin/racer, built with -race by bin/check) and reports
 // data races or results that differ from the sequential ones.
 func runC19(c *Ctx) {
-	c.Res.Rule = "the racer binary (built with -race from /repo's working tree): 16 goroutines Parse the 652 spec examples, the benchmark document and a mixed document concurrently (several rounds) and every result is compared with the sequential one; for every 8th document one parsed tree is shared by 16 goroutines running Render under 18 configurations, Format, Walk and Extract, and one HTMLRenderer value is shared by 4 goroutines; a race report or a differing result is a violation; non-trivial = each (document, operation mix) pair; the count below is documents x rounds"
-	rounds := 10
-	if !c.quick() {
-		rounds = 200
-	}
+	c.Res.Rule = "the racer binary (built with -race from /repo's working tree): 16 goroutines Parse the 652 spec examples, the benchmark document and a mixed document concurrently (several rounds) and every result is compared with the sequential one; for every 2nd document one parsed tree is shared by 16 goroutines running Render under 18 configurations, Format, Walk and Extract, and one HTMLRenderer value is shared by 4 goroutines; a race report or a differing result is a violation; non-trivial = each (document, operation mix) pair; the count below is documents x rounds"
+	rounds := c.N(10, 200)
 	bin := filepath.Join(verifDir, "go/bin/racer")
 	cmd := exec.Command(bin, "-repo", repoDir, "-rounds", strconv.Itoa(rounds), "-workers", "16")
 	cmd.Env = append(os.Environ(), "GORACE=halt_on_error=0 exitcode=66")
